@@ -18,6 +18,7 @@ import numpy as np
 import onnx
 import onnx_ir as ir
 
+from iosim.tensors import LAYOUTS, relayout
 from irsim import iso, modelgen, ops, snapshot
 from irsim.world import World
 from simcore.prng import Streams, digest
@@ -28,8 +29,8 @@ PROPERTY = "C03"
 LEVEL = "exploration"
 ops.AVOID_NODE_OUTPUTS_ON_GRAPH_INPUTS = True
 TIERS = {
-    "quick": {"wall": 40, "chunk": 40, "shrink_budget": 300, "shrink_wall": 60},
-    "thorough": {"wall": 600, "chunk": 100, "shrink_budget": 600, "shrink_wall": 240},
+    "quick": {"wall": 33, "optimize_wall": 7, "chunk": 40, "shrink_budget": 300, "shrink_wall": 60},
+    "thorough": {"wall": 600, "optimize_wall": 90, "chunk": 100, "shrink_budget": 600, "shrink_wall": 240},
 }
 RULE = (
     "each run = (A) one Engine A history of 15-50 ops with to_proto(model) inserted as an observer at 2-5 arbitrary points, and (B) one "
@@ -166,7 +167,7 @@ def apply_edit(model, edit, fresh) -> str:
         arr = old.numpy()
         which = b % 5
         if which == 0:
-            iv.const_value = ir.Tensor(arr.copy(), name=iv.name)
+            iv.const_value = ir.Tensor(relayout(arr.copy(), LAYOUTS[(b >> 3) % len(LAYOUTS)]), name=iv.name)
         elif which == 1:
             tp = onnx.TensorProto()
             tp.name = iv.name
@@ -191,7 +192,7 @@ def apply_edit(model, edit, fresh) -> str:
                 tp.raw_data = arr.tobytes()
             iv.const_value = ir.serde.deserialize_tensor(tp)
         elif which == 2:
-            iv.const_value = ir.LazyTensor(lambda arr=arr, name=iv.name: ir.Tensor(arr, name=name), dtype=old.dtype, shape=ir.Shape(arr.shape), name=iv.name, cache=bool(b % 2))
+            iv.const_value = ir.LazyTensor(lambda arr=relayout(arr.copy(), LAYOUTS[(b >> 3) % len(LAYOUTS)]), name=iv.name: ir.Tensor(arr, name=name), dtype=old.dtype, shape=ir.Shape(arr.shape), name=iv.name, cache=bool(b % 2))
         elif which == 3:
             iv.const_value = ir.ExternalTensor("weights/w.bin", 16 * (b % 4), old.nbytes, old.dtype, shape=ir.Shape(arr.shape), name=iv.name)
         else:
